@@ -57,6 +57,7 @@ type Location struct {
 	Variant string // "" = authentic; otherwise a forged/odd variant of Versions[Cur] is served
 	vcache  map[string]*CRLSpec
 	pcache  map[string]*x509.Certificate
+	SlowFirst time.Duration // delay of the first good delivery only
 }
 
 // ProbeCert returns a real, parsed certificate (no CDP, no AIA) of the location's issuer with the
@@ -257,6 +258,9 @@ func (l *Location) serve(hit *NetHit) Delivery {
 	case oGood:
 		v := l.Doc()
 		d.Body, d.Doc, d.Intact = v.Bytes, v.Name, true
+		if l.SlowFirst > 0 && l.Fetches == 1 {
+			d.Delay = l.SlowFirst // the first requester is served slowly: a later requester overtakes it
+		}
 	case oDown:
 		d.Kind = dRefuse
 	case oHTTP500:
